@@ -18,6 +18,7 @@ import (
 	"github.com/Eyevinn/mp4ff/aac"
 	"github.com/Eyevinn/mp4ff/avc"
 	"github.com/Eyevinn/mp4ff/bits"
+	"github.com/Eyevinn/mp4ff/hevc"
 	"github.com/Eyevinn/mp4ff/internal/vsim/sim"
 	"github.com/Eyevinn/mp4ff/internal/vsim/work"
 	"github.com/Eyevinn/mp4ff/mp4"
@@ -391,6 +392,26 @@ func c20Exec(tk *c20Task, sc *c20Script, st c20Step, shared [][]byte, annexb [][
 		fresh := mp4.CreateStyp()
 		fresh.AddCompatibleBrands(add)
 		enc(fresh)
+		// an init segment of the task's own making whose data reference is pointed at an external location
+		ini := mp4.CreateEmptyInit()
+		ini.AddEmptyTrack(uint32(1000+st.arg), "video", "und")
+		if trak := ini.Moov.Trak; trak != nil && trak.Mdia != nil && trak.Mdia.Minf != nil && trak.Mdia.Minf.Dinf != nil && trak.Mdia.Minf.Dinf.Dref != nil {
+			for _, c := range trak.Mdia.Minf.Dinf.Dref.Children {
+				if u, ok := c.(*mp4.URLBox); ok && st.arg%2 == 1 {
+					u.Flags, u.NoLocation, u.Location = 0, false, fmt.Sprintf("http://example.com/%d.mp4", st.arg)
+				}
+			}
+		}
+		enc(ini.Moov)
+		// parameter sets taken out of the task's own copy of an HEVC-style byte stream stay what they were while others extract theirs
+		hs := []byte{0, 0, 0, 1, 0x40, 1, byte(st.arg), 2, 3, 0, 0, 0, 1, 0x42, 1, byte(st.arg), 5, 6, 7, 0, 0, 0, 1, 0x44, 1, byte(st.arg), 9}
+		v1, s1, p1 := hevc.GetParameterSetsFromByteStream(hs)
+		enc(mp4.CreateStyp())
+		for _, set := range [][][]byte{v1, s1, p1} {
+			for _, n := range set {
+				h.Write(n)
+			}
+		}
 		seg := mp4.NewMediaSegment()
 		if seg.Styp != nil {
 			fmt.Fprintf(h, "%v", seg.Styp.CompatibleBrands())
